@@ -15,19 +15,22 @@ for f in sorted(glob.glob("/root/brk/seed_results*.txt")) + sorted(glob.glob("/r
             det[(g, i, n)] = (int(rc), sig.strip())
 conf = {}
 for f in sorted(glob.glob("/root/brk/confirm*.txt")):
-    cur = None
+    cur = None; blocks = []
     for l in open(f):
-        m = re.match(r"=== (\w+) (C\d+)/(\d+)", l)
+        m = re.match(r"=== (?:/root/brk/out/)?(\w+)[ /](C\d+)/(\d+)", l)
         if m:
-            cur = m.groups(); conf[cur] = {}
+            cur = (m.groups(), {}); blocks.append(cur)
         elif cur and l.startswith("demo cmd:"):
-            conf[cur]["demo_cmd"] = l.split(":", 1)[1].strip()
+            cur[1]["demo_cmd"] = l.split(":", 1)[1].strip()
         elif cur and l.startswith("demo without change:"):
-            conf[cur]["demo_without_change"] = l.split(":", 1)[1].strip()
+            cur[1]["demo_without_change"] = l.split(":", 1)[1].strip()
         elif cur and l.startswith("demo with change:"):
-            conf[cur]["demo_with_change"] = l.split(":", 1)[1].strip()
+            cur[1]["demo_with_change"] = l.split(":", 1)[1].strip()
         elif cur and l.startswith("existing tests with change"):
-            conf[cur].setdefault("existing_tests_with_change", []).append(l[len("existing tests with change"):].strip()[:400])
+            cur[1].setdefault("existing_tests_with_change", []).append(l[len("existing tests with change"):].strip()[:400])
+    for k, v in blocks:
+        if v.get("demo_without_change") and v.get("demo_with_change"):
+            conf[k] = v
 notes = json.load(open("/root/brk/seed_notes.json")) if os.path.exists("/root/brk/seed_notes.json") else {}
 rows = []
 for d in sorted(glob.glob(f"{OUT}/*/C*/*/")):
